@@ -145,7 +145,8 @@ pub fn file_name(i: u8) -> &'static str {
 pub fn name_idx(odd: u32) -> impl Strategy<Value = u8> {
     prop_oneof![
         6 => 0u8..N_PLAIN_NAMES as u8,
-        odd => N_PLAIN_NAMES as u8..FILE_NAMES.len() as u8,
+        // the last name contains a newline (finding F6n): only C05 asks for it explicitly
+        odd => N_PLAIN_NAMES as u8..(FILE_NAMES.len() - 1) as u8,
     ]
 }
 
@@ -526,6 +527,10 @@ impl Engine {
 
     pub fn dirty(&mut self) -> bool {
         !self.w.rgit(&["status", "--porcelain", "--untracked-files=all"]).out_trim().is_empty()
+    }
+
+    pub fn in_progress_public(&mut self) -> Option<&'static str> {
+        self.in_progress()
     }
 
     fn in_progress(&mut self) -> Option<&'static str> {
